@@ -1,8 +1,9 @@
 ------------------------------ MODULE TraceNLC ------------------------------
 (* Trace specification for NewlineCache (C19): consumes begin / feed / answers events recorded
    from the real cache.  `feed' must be the Feed action with exactly the logged successor state;
-   `answers' is checked against the MEANING layer at every offset and span. *)
-EXTENDS NewlineCache, Json, IOUtils
+   `answers' is checked against the MEANING layer at every offset and span - including the
+   rendering of every span by the diagnostics formatter (Diagnostics.tla). *)
+EXTENDS Diagnostics, Json, IOUtils
 Rec == ndJsonDeserialize(IOEnv.TRACE)
 VARIABLES l, inst, ndev
 tvars == <<l, inst, ndev, text, newlines, trailing, feeds>>
@@ -25,6 +26,7 @@ AnswerDevs(e) ==
                \cup IfDev(<<sp[13], sp[14], sp[15], sp[16]>> = <<Line(s), Col(s), Line(en), Col(en)>>, "line_col of a lexer produced by lrlex (also after a lexing error)", <<s, en, <<sp[13], sp[14], sp[15], sp[16]>> >>)
                \cup IfDev(<<sp[17], sp[18]>> = m, "span_lines_str of a lexer produced by lrlex", <<s, en, <<sp[17], sp[18]>>, m>>)
                \cup IfDev(<<sp[19], sp[20]>> = <<Line(s), Col(s)>>, "diagnostics file:line:col", <<s, en, <<sp[19], sp[20]>> >>)
+               \cup (LET rd == Render(s, en) IN IfDev(sp[21] = rd, "diagnostics rendering of the span (line numbers, lines, indentation, underline, message)", <<s, en, sp[21], rd>>))
                : i \in 1 .. Len(e.spans) }
 
 Init == l = 1 /\ inst = "" /\ ndev = 0 /\ NLInit
